@@ -16,15 +16,15 @@ type TV struct {
 
 // TEnv is the environment a spec expression is translated in.
 type TEnv struct {
-	v      *FnVerifier
-	st     *State
-	old    *TEnv // environment for old(...); nil = self
-	vars   map[string]TV
-	bound  map[string]TV
-	pkg    string // package path whose scope resolves identifiers
-	quant  int
-	nowOld Term // allocation clock of the pre-state (for fresh())
-	resolve func(name string) (TV, bool)
+	v         *FnVerifier
+	st        *State
+	old       *TEnv // environment for old(...); nil = self
+	vars      map[string]TV
+	bound     map[string]TV
+	pkg       string // package path whose scope resolves identifiers
+	quant     int
+	nowOld    Term // allocation clock of the pre-state (for fresh())
+	resolve   func(name string) (TV, bool)
 	loopEntry *TEnv // environment at loop entry, for entry(...)
 }
 
@@ -390,6 +390,14 @@ func (te *TEnv) index(x EIdx) TV {
 			if m, ok := base.T.Underlying().(*types.Map); ok {
 				hasN, valN, ks, vs, _ := mapArrays(base.T)
 				k := te.term(x.I)
+				if vs == "" && kindOf(m.Elem()) == KSlice {
+					// m[k] of a slice-valued map is left unspecified in specs when the key is absent
+					// (every use is guarded by has(m, k)); an ite here would defeat the at-patterns
+					comp := func(suf string, s Sort) Term {
+						return Select(Select(v.arr(te.st, valN+suf, ArrSort(SRef, ArrSort(ks, s))), b), k)
+					}
+					return TV{SliceV{B: comp(".b", SRef), O: comp(".o", SInt), L: comp(".l", SInt), C: comp(".c", SInt), Elem: m.Elem().Underlying().(*types.Slice).Elem()}, m.Elem()}
+				}
 				if vs == "" {
 					sfail("map values of %s are not modelled", m.Elem())
 				}
@@ -543,6 +551,32 @@ func (te *TEnv) call(x ECall) TV {
 			now = te.old.st.now
 		}
 		return TV{T(SBool, "(and (>= (birth %s) %s) (not (= %s null)))", t.S, now.S, t.S), nil}
+	case "unfold":
+		// unfold(f(args)): the definition of the (recursive) opaque spec f, instantiated at these arguments
+		c, ok := arg(0).(ECall)
+		if !ok {
+			sfail("unfold wants a call of an opaque spec function")
+		}
+		name := c.F
+		if i := strings.LastIndex(name, "."); i >= 0 {
+			if _, ok := v.eng.db.Specs[name]; !ok {
+				name = name[i+1:]
+			}
+		}
+		sf, ok := v.eng.db.Specs[name]
+		if !ok || !sf.Opaque {
+			sfail("unfold: %s is not an opaque spec function", c.F)
+		}
+		args := make([]TV, len(c.Args))
+		for i, a := range c.Args {
+			args[i] = te.tr(a)
+		}
+		if te.quant > 0 {
+			sfail("unfold cannot be used under a quantifier")
+		}
+		_, inst := te.opaqueApp(sf, args, true)
+		v.ctx.Assert(inst) // an instance of the definition: always true
+		return TV{TTrue, nil}
 	case "mkslice":
 		// mkslice(base, off, len, "[]T"): a slice value from ghost components
 		name, ok := arg(3).(EStr)
@@ -787,58 +821,98 @@ func (v *FnVerifier) truncOf(x Term) Term {
 	return r
 }
 
-// opaqueCall: p(args, versions of the heap arrays the body reads), with the definition
-// available as a quantified axiom triggered on applications of p (so that big quantified
-// bodies are atoms wherever they are only transported, not opened).
+// opaqueCall: f(args, versions of the heap arrays the body reads), with the definition
+// available as a quantified axiom triggered on applications of f (so that big quantified
+// bodies are atoms wherever they are only transported, not opened). Recursive opaque
+// specs get no automatic axiom: their definition is instantiated with unfold(f(...)).
 func (te *TEnv) opaqueCall(sf *SpecFunc, args []TV) TV {
-	v := te.v
-	type dep struct {
-		name string
-		sort Sort
+	app, _ := te.opaqueApp(sf, args, false)
+	return app
+}
+
+// flattenArg turns a spec argument into SMT terms (slices contribute base, off, len).
+func flattenArg(v *FnVerifier, a TV, name string, i int) []Term {
+	switch x := a.V.(type) {
+	case Term:
+		return []Term{x}
+	case SliceV:
+		return []Term{x.B, x.O, x.L}
+	case *ClosureV:
+		return []Term{x.Term}
 	}
-	// 1. which arrays does the body read?  (translate once with recording on)
+	sfail("opaque spec %s: argument %d has an unsupported shape (%T)", name, i, a.V)
+	return nil
+}
+
+func (te *TEnv) opaqueApp(sf *SpecFunc, args []TV, unfold bool) (TV, Term) {
+	v := te.v
 	if v.opqDeps == nil {
 		v.opqDeps = map[string][]string{}
 		v.opqDone = map[string]bool{}
 	}
+	gtRet, retSort := v.eng.resolveType(sf.Pkg, sf.Ret)
+	if retSort == "" {
+		sfail("opaque spec %s must return a scalar", sf.Name)
+	}
+	// bound-variable environment for the definition
 	mkEnv := func() (*TEnv, []string, []Term) {
 		n := &TEnv{v: v, st: te.st, vars: map[string]TV{}, bound: map[string]TV{}, pkg: sf.Pkg, quant: 1, nowOld: te.nowOld}
 		var decls []string
 		var syms []Term
 		for _, p := range sf.Params {
 			gt, s := v.eng.resolveType(sf.Pkg, p.Type)
-			v.eng.qn++
-			sym := Term{Sym(fmt.Sprintf("%s!o%d", p.Name, v.eng.qn)), s}
-			decls = append(decls, fmt.Sprintf("(%s %s)", sym.S, s))
-			syms = append(syms, sym)
-			n.vars[p.Name] = TV{sym, gt}
+			mk := func(suffix string, s Sort) Term {
+				v.eng.qn++
+				sym := Term{Sym(fmt.Sprintf("%s%s!o%d", p.Name, suffix, v.eng.qn)), s}
+				decls = append(decls, fmt.Sprintf("(%s %s)", sym.S, s))
+				syms = append(syms, sym)
+				return sym
+			}
+			if gt != nil && kindOf(gt) == KSlice {
+				b, o, l := mk(".b", SRef), mk(".o", SInt), mk(".l", SInt)
+				n.vars[p.Name] = TV{SliceV{B: b, O: o, L: l, C: l, Elem: gt.Underlying().(*types.Slice).Elem()}, gt}
+			} else {
+				n.vars[p.Name] = TV{mk("", s), gt}
+			}
 		}
 		return n, decls, syms
 	}
+	if v.opqBusy[sf.Name] {
+		// recursive occurrence while discovering the dependencies of this same function
+		return TV{Term{"opq_discovery_dummy", retSort}, gtRet}, TTrue
+	}
 	deps, ok := v.opqDeps[sf.Name]
 	if !ok {
+		if v.opqBusy == nil {
+			v.opqBusy = map[string]bool{}
+		}
+		v.opqBusy[sf.Name] = true
 		n, _, _ := mkEnv()
 		saved := v.rec
 		v.rec = map[string]bool{}
-		n.bool(sf.Body)
+		n.tr(sf.Body)
 		for k := range v.rec {
 			deps = append(deps, k)
 		}
 		sort.Strings(deps)
 		v.rec = saved
 		v.opqDeps[sf.Name] = deps
+		v.opqBusy[sf.Name] = false
 	}
-	if v.rec != nil { // we are inside another opaque body's discovery: propagate
+	if v.rec != nil {
 		for _, d := range deps {
 			v.rec[d] = true
 		}
 	}
-	// 2. current versions
 	var vers []Term
 	var sorts []Sort
 	for _, p := range sf.Params {
-		_, s := v.eng.resolveType(sf.Pkg, p.Type)
-		sorts = append(sorts, s)
+		gt, s := v.eng.resolveType(sf.Pkg, p.Type)
+		if gt != nil && kindOf(gt) == KSlice {
+			sorts = append(sorts, SRef, SInt, SInt)
+		} else {
+			sorts = append(sorts, s)
+		}
 	}
 	for _, d := range deps {
 		s := v.arrSort[d]
@@ -852,31 +926,44 @@ func (te *TEnv) opaqueCall(sf *SpecFunc, args []TV) TV {
 		sorts = append(sorts, s)
 	}
 	name := "opq:" + sf.Name
-	v.ctx.Declare(name, sorts, SBool)
+	v.ctx.Declare(name, sorts, retSort)
 	var argTerms []Term
 	for i, a := range args {
-		t, isT := a.V.(Term)
-		if !isT {
-			sfail("opaque spec %s: argument %d is not a scalar", sf.Name, i)
+		for _, t := range flattenArg(v, a, sf.Name, i) {
+			argTerms = append(argTerms, v.coerce(t, sorts[len(argTerms)]))
 		}
-		argTerms = append(argTerms, v.coerce(t, sorts[i]))
 	}
-	app := App(SBool, Sym(name), append(argTerms, vers...)...)
-	// 3. the definition, once per tuple of array versions
+	app := App(retSort, Sym(name), append(argTerms, vers...)...)
 	key := sf.Name
 	for _, t := range vers {
 		key += "|" + t.S
 	}
-	if !v.opqDone[key] {
+	recursive := strings.Contains(sf.Body.String(), sf.Name+"(")
+	if !recursive && !v.opqDone[key] {
 		v.opqDone[key] = true
 		n, decls, syms := mkEnv()
-		body := n.bool(sf.Body)
-		lhs := App(SBool, Sym(name), append(syms, vers...)...)
+		body := n.tr(sf.Body).V.(Term)
+		lhs := App(retSort, Sym(name), append(syms, vers...)...)
+		body = v.coerce(body, retSort)
 		if len(decls) > 0 {
 			v.ctx.AssertRaw(fmt.Sprintf("(assert (forall (%s) (! (= %s %s) :pattern (%s))))", strings.Join(decls, " "), lhs.S, body.S, lhs.S))
 		} else {
 			v.ctx.Assert(Eq(lhs, body))
 		}
 	}
-	return TV{app, nil}
+	var inst Term
+	if unfold {
+		// the definition, instantiated for these arguments
+		n := &TEnv{v: v, st: te.st, vars: map[string]TV{}, bound: te.bound, pkg: sf.Pkg, quant: te.quant, nowOld: te.nowOld}
+		for i, p := range sf.Params {
+			a := args[i]
+			if gt, _ := v.eng.resolveType(sf.Pkg, p.Type); gt != nil {
+				a.T = gt
+			}
+			n.vars[p.Name] = a
+		}
+		body := v.coerce(n.tr(sf.Body).V.(Term), retSort)
+		inst = Eq(app, body)
+	}
+	return TV{app, gtRet}, inst
 }
